@@ -22,8 +22,12 @@ static int expected(int p, unsigned long c, long start, uint8_t *buf, long *endp
 #endif
       if ((unsigned)(pos + L - 1) >= (q + 1) * (unsigned)c) cnt++;
     }
+#ifndef GLUE_NOWRITE
     for (int j = 0; j < LMAX; j++)
       if (j < L) CHECK(buf[pos + j] == l->sig[j], "counting emits the same bytes as plain assembly");
+#else
+    CHECK(glue_find(p, i, buf, pos, GBUF) == pos, "counting places every instruction where plain assembly does");
+#endif
     pos += L;
   }
   *endp = pos;
